@@ -386,6 +386,53 @@ class Prop(fw.PropBase):
         mols = [[[i, 0, (0 if s is None else s[0]), ([] if s is None else [s[1]]), []] for s in m] for i, m in enumerate(c['mols'])]
         return [t, mols]
 
+    def gen_cases(self):
+        """(contig lengths, bin size, fragment size, bp_per_job) for the region generator, boundary biased:
+        len < bin, len = k*bin, len = k*bin +- 1, margin 0 / < bin / = bin / > bin / > len, one or several contigs"""
+        import random as _random
+        rng = _random.Random(self.seed * 7919 + 8)
+        out = []
+        def one_len(bs):
+            k = rng.randint(1, 6)
+            return rng.choice([1, 2, max(1, bs - 1), bs, bs + 1, k * bs, k * bs + 1, max(1, k * bs - 1), rng.randint(1, 8 * bs), rng.randint(1, max(1, bs // 2))])
+        for i in range(400 if self.tier == 'quick' else 6000):
+            bs = rng.choice([1, 2, 3, 7, 10, 100, 1000, rng.randint(1, 50)])
+            n = rng.choice([1, 1, 2, 3])
+            contigs = [['g%d' % j, one_len(bs)] for j in range(n)]
+            f = rng.choice([0, 1, max(0, bs - 1), bs, bs + 1, 3 * bs, 100 * bs + 5, rng.randint(0, 2 * bs)])
+            out.append({'contigs': contigs, 'bs': bs, 'f': f, 'bp': rng.choice([1, bs, 2 * bs, 5 * bs + 1, 10 ** 6])})
+        return out
+
+    @staticmethod
+    def gen_class(c):
+        ln, bs, f = c['contigs'][0][1], c['bs'], c['f']
+        return ('len<bin' if ln < bs else 'len=k*bin' if ln % bs == 0 else 'len=k*bin+1' if ln % bs == 1 else 'len=k*bin-1' if ln % bs == bs - 1 else 'other',
+                'f=0' if f == 0 else 'f<bin' if f < bs else 'f=bin' if f == bs else 'f>len' if f > ln else 'f>bin')
+
+    @staticmethod
+    def eval_gen(c, r):
+        """the tiling predicate of C08_equiv (python transcription: py_plans_ok with L = fragment size) and the window shape of
+        C08_gen_shape on the implementation's output; returns (plans, problems)"""
+        if r.get('error'):
+            return None, ['the generator raised ' + r['error']]
+        ids = {n: i for i, (n, _) in enumerate(c['contigs'])}
+        by = {i: [] for i in ids.values()}
+        problems = []
+        for t in r['regions']:
+            if len(t) != 5 or t[0] not in ids:
+                problems.append('unexpected region tuple %r' % (t,))
+                continue
+            by[ids[t[0]]].append([ids[t[0]], 1, t[1], t[2], t[3], t[4]])
+        plans = [[ids[n], l, by[ids[n]]] for n, l in c['contigs']]
+        for p in plans:
+            if not py_plan_ok(c['f'], p) and not problems:
+                problems.append('the regions of contig %r (length %d) do not tile it with fetch margins >= %d or clipped at the contig ends: %r'
+                                % (c['contigs'][p[0]][0], p[1], c['f'], [t[2:] for t in p[2]]))
+        flat = [t for job in r['jobs'] for t in job]
+        if flat != r['regions'] and not problems:
+            problems.append('bp_chunked lost, duplicated or reordered a region')
+        return plans, problems
+
     def chunk_cases(self):
         rng = self.rng
         out = []
@@ -604,9 +651,10 @@ class Prop(fw.PropBase):
         loops, chunks, libs = self.loop_cases(), self.chunk_cases(), self.lib_cases()
         corpus = self.load_corpus()
         libs = corpus + libs
-        res = fw.run_impl('impl_c08.py', {'loops': loops, 'chunks': chunks,
+        gens = self.gen_cases()
+        res = fw.run_impl('impl_c08.py', {'loops': loops, 'chunks': chunks, 'gens': gens,
                                           'libs': [{'lib': c['lib'], 'runs': c['runs'], 'deep': bool(c.get('deep'))} for c in libs]}, timeout=3000)
-        self.loops, self.chunks, self.libs, self.res = loops, chunks, libs, res
+        self.loops, self.chunks, self.libs, self.res, self.gens = loops, chunks, libs, res, gens
         dis = []
         # ---- end to end (specification on the implementation's output; no model involved)
         n_runs = n_pre = 0
@@ -689,6 +737,38 @@ class Prop(fw.PropBase):
                 # where the chunk boundaries fall, and whether an empty chunk is emitted, is scheduling
                 if isinstance(r, dict) or [t for job in r for t in job] != [t for job in exp for t in job]:
                     loop_dis.append({'kind': 'bp_chunked', 'input': c, 'model': exp, 'impl': r})
+            # region generator against the model (Model/C08x.v, mode 5).  The statement constrains the tiling predicate, not
+            # where the bin boundaries fall: a generator output that differs from the model's but is a valid tiling is
+            # counted as drift (evidence), an invalid one is reported by search() as a violation
+            gens, rg = self.gens, res.get('gens') or []
+            if gens and len(rg) == len(gens):
+                mg = fw.run_model('C08', 5, [[[[i, l] for i, (_, l) in enumerate(c['contigs'])], c['bs'], c['f'], c['bp'], c['f']] for c in gens])
+                exact = drift = 0
+                gh = {}
+                for c, m, r in zip(gens, mg, rg):
+                    plans, problems = self.eval_gen(c, r)
+                    cl = '/'.join(self.gen_class(c))
+                    gh[cl] = gh.get(cl, 0) + 1
+                    if not bool(m[2]):
+                        loop_dis.append({'kind': 'region generator: the model output does not satisfy plans_ok (contradicts C08_gen_plans_ok)', 'input': c, 'model': m})
+                        continue
+                    if problems:
+                        continue            # search() reports it
+                    impl_regions = [[t[0], t[2], t[3], t[4], t[5]] for p in plans for t in p[2]]
+                    if impl_regions == [[t[0], t[2], t[3], t[4], t[5]] for t in m[0]]:
+                        exact += 1
+                    else:
+                        drift += 1
+                self.cov['generator_cases'] = len(gens)
+                self.cov['generator_exact_match_with_model'] = exact
+                self.cov['generator_valid_but_different_tiling'] = drift
+                self.cov['generator_classes'] = gh
+                gsample = list(range(0, len(gens), max(1, len(gens) // 100)))[:100]
+                okg, nmg, logg = fw.vm_crosscheck('C08', 5, [([[[i, l] for i, (_, l) in enumerate(gens[k]['contigs'])], gens[k]['bs'], gens[k]['f'], gens[k]['bp'], gens[k]['f']], mg[k]) for k in gsample],
+                                                  run_name='run_C08x', require='Model.C08x')
+                self.cov['vm_compute_crosscheck_generator'] = {'cases': len(gsample), 'mismatches': nmg}
+                if not okg:
+                    raise fw.Broken('extraction', 'vm_compute and extracted model disagree (generator): ' + logg[-800:])
             # per task prediction of the model (which reads every task writes) and its precondition / owner count
             m0_in, m1_in, idx = [], [], []
             for k, (case, run, rr, ev) in enumerate(evals):
@@ -750,7 +830,8 @@ class Prop(fw.PropBase):
         res = getattr(self, 'res', None)
         if res is None:
             self.loops, self.chunks, self.libs = self.loop_cases(), self.chunk_cases(), self.load_corpus() + self.lib_cases()
-            res = fw.run_impl('impl_c08.py', {'loops': self.loops, 'chunks': self.chunks,
+            self.gens = self.gen_cases()
+            res = fw.run_impl('impl_c08.py', {'loops': self.loops, 'chunks': self.chunks, 'gens': self.gens,
                                               'libs': [{'lib': c['lib'], 'runs': c['runs'], 'deep': bool(c.get('deep'))} for c in self.libs]}, timeout=3000)
         best = None
         for c, r in zip(self.loops, res['loops']):
@@ -776,6 +857,17 @@ class Prop(fw.PropBase):
                 self.witnesses.append({'key': 'bp_chunked', 'what': 'bp_chunked(%r, %r) = %r does not concatenate to its input'
                                        % (c['tasks'], c['bp'], r), 'input': c, 'impl': r})
                 break
+        bestg = None
+        for c, r in zip(getattr(self, 'gens', []), res.get('gens') or []):
+            plans, problems = self.eval_gen(c, r)
+            if problems:
+                size = sum(l for _, l in c['contigs']) + len(c['contigs'])
+                if bestg is None or size < bestg[0]:
+                    bestg = (size, {'key': 'gen:tiling', 'what': 'blacklisted_binning_contigs(%r, bin_size=%d, fragment_size=%d): %s'
+                                    % (c['contigs'], c['bs'], c['f'], problems[0]), 'input': c, 'impl': r,
+                                    'expected': 'consecutive bins from 0 to the contig length, fetch window = bin widened by the fragment size or clipped at the contig ends'})
+        if bestg:
+            self.witnesses.append(bestg[1])
         bestl = None
         for case, r in zip(self.libs, res['libs']):
             if r.get('error'):
